@@ -46,6 +46,7 @@ FIXES = [
     ("fix: the bindings-of-an-owner listing returns only", "D23", ["C17"], "regress/C17/d23-owner-listing-answers-for-another-owner-and-service.json"),
     ("fix: MockToken.ToMinCoin also rejects", "D24", ["C20"], "regress/C20/d24-decimal-price-beyond-the-integer-range.json"),
     ("fix: reject a time promotion outside", "D25", ["C20"], "regress/C20/d25-promotion-window-before-year-one.json"),
+    ("fix: a withdrawal address must not be an account", "D26", ["C03", "C01"], "regress/C03/d26-earnings-withdrawn-into-the-deposit-account.json"),
 ]
 
 
